@@ -137,6 +137,83 @@ SPECIFIC = {"http": EDITS_HTTP, "ws": {**EDITS_HTTP, **EDITS_WS}, "tcp": EDITS_M
 CONTROL = ("backup", "revert", "copy")
 
 
+# ------------------------------------------------------------------------------------------ typed layer (HTTP flows)
+# The Lean model Model/C40_Http.lean predicts the component state after an edit from the edit itself; here the edit is
+# described to it (never its result) and the real get_state() is rendered in the model's component syntax.
+MSG_SKIP = ("headers", "content", "trailers")
+REQ_ATOM = {k: i for i, k in enumerate(["http_version", "timestamp_start", "timestamp_end", "host", "port", "method", "scheme", "authority", "path"])}
+RESP_ATOM = {k: i for i, k in enumerate(["http_version", "timestamp_start", "timestamp_end", "status_code", "reason"])}
+
+
+def _hx(b): return bytes(b).hex() if b else "-"
+def t_fields(h): return ",".join(_hx(k) + "=" + _hx(v) for k, v in h)
+def t_msg(st, ival):
+    return (".".join(str(ival(v)) for k, v in st.items() if k not in MSG_SKIP) + "/" + t_fields(st["headers"]) + "/" +
+            ("~" if st["content"] is None else _hx(st["content"])) + "/" + ("~" if st["trailers"] is None else "!" + t_fields(st["trailers"])))
+def t_wsmsg(m, ival):
+    typ, fc, c, ts, d, i = m
+    return "%d.%d.%s.%d.%d.%d" % (ival(typ), fc, _hx(c), ival(ts), d, i)
+def t_ws(v, ival):
+    if v is None: return "W~"
+    return ("W" + ".".join(str(ival(v[k])) for k in ("closed_by_client", "close_code", "close_reason", "timestamp_end")) + "/" +
+            ";".join(t_wsmsg(m, ival) for m in v["messages"]))
+def t_meta(v, ival): return "M" + ".".join("%d=%d" % (ival(k), ival(x)) for k, x in v.items())
+def t_comp(key, v, ival):
+    if key in ("client_conn", "server_conn"): return "C" + ".".join(str(ival(x)) for x in v.values())
+    if key == "error": return "E~" if v is None else "E%d.%d" % (ival(v["msg"]), ival(v["timestamp"]))
+    if key == "intercepted": return "B%d" % (1 if v else 0)
+    if key == "metadata": return t_meta(v, ival)
+    if key == "request": return "Q" + t_msg(v, ival)
+    if key == "response": return "R~" if v is None else "R" + t_msg(v, ival)
+    if key == "websocket": return t_ws(v, ival)
+    return "A%d" % ival(v)
+
+
+def typed_edit(name, f, a, ival):
+    """the typed description of edit `name` with argument a (computed BEFORE the edit runs); None = a no-op here"""
+    cc, sc = list(f.client_conn.get_state()), list(f.server_conn.get_state())
+    if name == "cc_sni": return "conn 0 %d %d" % (cc.index("sni"), ival(["address", "a.example", None][a]))
+    if name == "cc_alpn": return "conn 0 %d %d" % (cc.index("alpn"), ival([b"http/1.1", b"h2", None][a]))
+    if name == "sc_addr": return "conn 1 %d %d" % (sc.index("address"), ival([("address", 22), ("x.example", 1), None][a]))
+    if name == "sc_sni": return "conn 1 %d %d" % (sc.index("sni"), ival(["address", "b.example", None][a]))
+    if name == "err_set": return "errset " + ["~", "%d.%d" % (ival("error"), ival(946681207)), "%d.%d" % (ival("e2"), ival(5.5))][a]
+    if name == "err_msg": return "errmsg %d" % ival(["error", "m1", "e2"][a])
+    if name == "intercept": return "flag %d" % (1 if a else 0)
+    if name == "replay": return "atom 4 %d" % ival([None, "request", "response"][a])
+    if name == "marked": return "atom 5 %d" % ival(["", ":grapes:", "x"][a])
+    if name == "comment": return "atom 7 %d" % ival(["", "c1", "c2"][a])
+    if name == "ts_created": return "atom 8 %d" % ival([946681200, 1.5, 946681200.0][a])
+    if name == "meta_set": return "mset %d %d" % (ival("k%d" % (a % 2)), ival([1, "s", [1, 2]][a]))
+    if name == "meta_nested":
+        l = f.metadata.get("l")
+        new = [] if (l is not None and (not isinstance(l, list) or len(l) > 2)) else (list(l or []) + [a])
+        return "mset %d %d" % (ival("l"), ival(new))
+    if name == "meta_del": return "mdel %d" % ival(["k0", "k1", "l"][a])
+    if name == "meta_replace": return "mrep " + t_meta([{}, {"a": 1}, {"l": [1]}][a], ival)
+    if name == "req_path": return "req atom %d %d" % (REQ_ATOM["path"], ival([b"/path", b"/x", b"/y"][a]))
+    if name == "req_method": return "req atom %d %d" % (REQ_ATOM["method"], ival([b"GET", b"POST", b"PUT"][a]))
+    if name == "req_content": return "req content " + _hx([b"content", b"", b"zzz"][a])
+    if name == "req_header": return "req hdel " + _hx(b"x-h") if a == 2 else "req hset %s %s" % (_hx(b"x-h"), _hx(str(a).encode()))
+    if name == "req_replace": return "reqrep Q" + t_msg(tutils.treq(path=[b"/path", b"/x", b"/r"][a]).get_state(), ival)
+    if name == "resp_status": return "resp atom %d %d" % (RESP_ATOM["status_code"], ival([200, 404, 500][a]))
+    if name == "resp_content": return "resp content " + _hx([b"message", b"", b"other"][a])
+    if name == "resp_set":
+        r = [None, tutils.tresp(), tutils.tresp(status_code=404)][a]
+        return "resprep " + ("R~" if r is None else "R" + t_msg(r.get_state(), ival))
+    w = getattr(f, "websocket", None)
+    if name == "ws_append":
+        if not (w and len(w.messages) < 5): return None
+        return "ws append %d.%d.%s.%d.0.0" % (ival(int(Opcode.TEXT)), a % 2, _hx(b"m%d" % a), ival(946681209))
+    if name == "ws_edit": return "ws setc 0 " + _hx([b"hello binary", b"e1", b""][a])
+    if name == "ws_pop": return "ws pop"
+    if name == "ws_drop":
+        if not (w and w.messages): return None
+        return "ws drop %d %d" % (len(w.messages) - 1, a % 2)
+    if name == "ws_set": return "wsrep " + t_ws(tflow.twebsocket(messages=bool(a)).get_state(), ival)
+    if name == "ws_close": return "ws atom 1 %d" % ival([1000, 1001, None][a])
+    raise KeyError(name)
+
+
 def make_flow(case):
     t, resp, err = case["type"], bool(case.get("resp")), bool(case.get("err"))
     if t == "http": return tflow.tflow(resp=resp, err=err)
@@ -156,15 +233,28 @@ class Check(PropertyCheck):
                   "(+ not_modified_right_after_backup, modified_after_backup_history), "
                   "copy_fresh_id_equal_content_not_live, copy_independent (ANY history not addressed to a flow leaves "
                   "its state untouched; no-aliasing invariant sep_preserved for every operation), all for arbitrary "
-                  "component value types, stores and histories (induction). The model is tied to the real "
-                  "Flow.backup/revert/modified/copy by running identical histories over HTTP, WebSocket, TCP, UDP and "
-                  "DNS flows and comparing every flow's id/live/component states/backup/modified() after each operation.")
-    level_note = ("edits are inputs of the model (their resulting component state is observed on the real flow and given "
-                  "to the model); what the model predicts and the theorems cover is backup/revert/modified/copy and "
-                  "non-interference. Fresh-cell allocation by from_state/copy is a modelling claim validated by the "
-                  "differential run, not proved about Python. Flow.modified() is modelled after the repair of F-C40a "
-                  "(fix commit in /repo). A copy inherits the source's backup including the source's id, so reverting a "
-                  "copy gives it the source's id: modelled as implemented (not part of the C40 statement).")
+                  "component value types, stores and histories (induction). Typed layer (Model/C40_Http.lean): the twelve "
+                  "components of HTTPFlow.get_state() as nested records (connection field lists, Error, Request/Response "
+                  "with Headers as case-insensitive multi-dict, body, trailers, WebSocketData with messages, metadata) and "
+                  "edits as code (attribute assignment, Headers set/del/add = MultiDict.set_all, Message.content setter with "
+                  "content-length rewrite, WebSocket message list edits, metadata dict edits, Error.msg, intercept/resume); "
+                  "typed histories compile to heap histories (runT_eq_run), giving typed_edit_predicts, "
+                  "typed_revert_restores (revert after ANY sequence of nested edits = id), typed_copy_independent, "
+                  "typed_modified_after_backup, typed_sep_preserved, plus hdrSet_has / hdrDel_not_has / "
+                  "setContent_sets_length. Tie: identical histories on real HTTP, WebSocket, TCP, UDP and DNS flows; "
+                  "generic layer compares every flow's id/live/component states/backup/modified() after each operation; "
+                  "for HTTP and WebSocket flows the typed layer is given only the DESCRIPTION of each edit and must predict "
+                  "the full nested get_state() of every flow (compared token by token, incl. header lists and bodies).")
+    level_note = ("generic layer (all flow types): edits are inputs (their resulting component state is observed and given "
+                  "to the model). Typed layer (HTTP/WebSocket flows only): edit results are predicted; leaf values the model "
+                  "never computes on (timestamps, host, path, status, connection field values, metadata values) are interned "
+                  "atoms, header names/values and bodies are real bytes; set_content is modelled for messages without a "
+                  "content-encoding header; nested mutation inside a metadata VALUE is given as the new value. TCP/UDP/DNS "
+                  "message edits remain in the generic layer only. Fresh-cell allocation by from_state/copy and the "
+                  "in-place/re-assign split of set_state are modelling claims validated by the differential run, not "
+                  "proved about Python. Flow.modified() is modelled after the repair of F-C40a. A copy inherits the "
+                  "source's backup including the source's id, so reverting a copy gives it the source's id: modelled as "
+                  "implemented (not part of the C40 statement).")
     technique = "Lean 4 proof (heap model, induction over operation histories) + differential model-vs-code correspondence"
     rule = ("structured: for every flow type every edit x arg as [backup, edit, revert], [backup, edit, edit-back], "
             "[edit, copy, edit], then random histories (3-16 ops, <=4 flows) over edits of all components, backup, revert, "
@@ -177,7 +267,10 @@ class Check(PropertyCheck):
                     "mitmproxy.http:HTTPFlow.copy", "mitmproxy.http:HTTPFlow.get_state", "mitmproxy.http:HTTPFlow.set_state",
                     "mitmproxy.tcp:TCPFlow.get_state", "mitmproxy.tcp:TCPFlow.set_state",
                     "mitmproxy.udp:UDPFlow.get_state", "mitmproxy.udp:UDPFlow.set_state",
-                    "mitmproxy.dns:DNSFlow.get_state", "mitmproxy.dns:DNSFlow.set_state"]
+                    "mitmproxy.dns:DNSFlow.get_state", "mitmproxy.dns:DNSFlow.set_state",
+                    "mitmproxy.coretypes.multidict:_MultiDict.set_all", "mitmproxy.coretypes.multidict:_MultiDict.__delitem__",
+                    "mitmproxy.coretypes.multidict:_MultiDict.add", "mitmproxy.http:Message.set_content",
+                    "mitmproxy.http:Headers._kconv", "mitmproxy.flow:Flow.intercept", "mitmproxy.flow:Flow.resume"]
     trusted_base = ["component get_state()/from_state() of Request/Response/Message/Connection objects produce deep, "
                     "value-like states (observed, not proved)",
                     "canonical rendering of component states used to intern values (numbers compared by value)"]
@@ -249,32 +342,52 @@ class Check(PropertyCheck):
                 out.append([iid(st["id"]), 1 if f.live else 0, comps, bk, 1 if f.modified() else 0])
             return out
 
+        typed = case["type"] in ("http", "ws")
+
+        def observe_t():
+            out = []
+            for f in flows:
+                st = f.get_state(); b = st["backup"]
+                comps = "+".join(t_comp(k, st[k], ival) for k in keys)
+                bk = "-" if b is None else "%d+%s" % (iid(b["id"]), "+".join(t_comp(k, b[k], ival) for k in keys))
+                out.append("%d:%d:%s:%s:%d" % (iid(st["id"]), 1 if f.live else 0, comps, bk, 1 if f.modified() else 0))
+            return "|".join(out)
+
         def lst(l): return ",".join(map(str, l)) if l else "-"
         s0 = observe()
         lines = ["reset", "new %d %d %s" % (s0[0][0], s0[0][1], lst(s0[0][2]))]
         steps, applied = [s0], []
+        tlines, tsteps = [], []
+        if typed:
+            st0 = flows[0].get_state()
+            tlines = ["treset", "tnew %d %d %s" % (s0[0][0], s0[0][1], "+".join(t_comp(k, st0[k], ival) for k in keys))]
+            tsteps = [observe_t()]
         for name, h, arg in case["ops"]:
             if not (0 <= h < len(flows)): continue
             f = flows[h]
             if name == "backup":
-                f.backup(); lines.append("backup %d" % h); info = {}
+                f.backup(); lines.append("backup %d" % h); info = {}; tlines.append("tbackup %d" % h)
             elif name == "revert":
-                f.revert(); lines.append("revert %d" % h); info = {}
+                f.revert(); lines.append("revert %d" % h); info = {}; tlines.append("trevert %d" % h)
             elif name == "copy":
                 if len(flows) >= MAXFLOWS: continue
                 known_ids = set(ids)
                 g = f.copy(); flows.append(g)
                 info = {"fresh": g.id not in known_ids and all(g.id != x.id for x in flows[:-1])}
-                lines.append("copy %d %d" % (h, iid(g.id)))
+                lines.append("copy %d %d" % (h, iid(g.id))); tlines.append("tcopy %d %d" % (h, iid(g.id)))
             else:
                 if name not in edits: continue
                 key, kind, fn = edits[name]
+                if typed:
+                    te = typed_edit(name, f, arg, ival)
+                    tlines.append("tbackup 99" if te is None else "tedit %d %s" % (h, te))     # 99: no such flow = no-op
                 fn(f, arg)
                 j = keys.index(key)
                 lines.append("%s %d %d %d" % (kind, h, j, ival(f.get_state()[key])))
                 info = {"j": j}
             steps.append(observe()); applied.append([name, h, info])
-        return {"steps": steps, "applied": applied, "problems": problems[:3]}, lines
+            if typed: tsteps.append(observe_t())
+        return {"steps": steps, "applied": applied, "problems": problems[:3], "tsteps": tsteps}, lines + (tlines if typed else [])
 
     def impl(self, case):
         try:
@@ -346,10 +459,13 @@ class Check(PropertyCheck):
                         for i, lv, c, b, m in state)
 
     def model_obs(self, case, replies):
-        return replies[1:]
+        if case["type"] in ("http", "ws"):
+            n = len(replies) // 2           # generic lines, then the same number of typed lines
+            return {"g": replies[1:n], "t": replies[n + 1:]}
+        return {"g": replies[1:], "t": []}
 
     def impl_view(self, case, obs):
-        return [self._render(s) for s in obs.get("steps", [])]
+        return {"g": [self._render(s) for s in obs.get("steps", [])], "t": obs.get("tsteps", [])}
 
     def classify(self, case, obs):
         names = [n for n, _, _ in obs.get("applied", [])]
